@@ -380,11 +380,23 @@ def rule_r5(p, res):
     # guard of the fast path implies order == 0 and mode == 'constant'
     conds = [(norm(t), pol) for t, pol in g.guards(stmt_of(cs[0]))]
     flat = []
+    def conj(t, pol):
+        # conjuncts that certainly hold on the path: through `and`, through `not (a or b)`, and through a local that only
+        # abbreviates a test
+        while isinstance(t, ast.UnaryOp) and isinstance(t.op, ast.Not):
+            t, pol = t.operand, not pol
+        if isinstance(t, ast.Name) and isinstance(d.single(t.id), ast.AST):
+            return conj(d.single(t.id), pol)
+        if isinstance(t, ast.BoolOp) and ((isinstance(t.op, ast.And) and pol) or (isinstance(t.op, ast.Or) and not pol)):
+            return [x for v in t.values for x in conj(v, pol)]
+        if isinstance(t, ast.BoolOp):
+            return []
+        if not pol and isinstance(t, ast.Compare) and len(t.ops) == 1 and isinstance(t.ops[0], ast.NotEq):
+            return [norm(ast.Compare(left=t.left, ops=[ast.Eq()], comparators=t.comparators))]
+        return [norm(t)] if pol else []
+
     for t, pol in g.guards(stmt_of(cs[0])):
-        if pol and isinstance(t, ast.BoolOp) and isinstance(t.op, ast.And):
-            flat += [norm(v) for v in t.values]
-        elif pol:
-            flat.append(norm(t))
+        flat += conj(t, pol)
     r.check(any(x in ("order == 0", "0 == order") for x in flat) and any(x in ("mode == 'constant'", "'constant' == mode") for x in flat), ex, cs[0],
             "the slicing fast path is only equivalent for order == 0 and mode == 'constant'; guard is %s" % conds,
             {"fast_path_guard": conds})
